@@ -48,9 +48,9 @@ def _strip_err_returns(b):
         k = e
         while b[k] in " \t\r\n":
             k += 1
-        if b[k] != ";":
-            raise AnchorLost("`return Err(..)` not followed by `;`")
-        b = b[:m.start()] + "return None;" + b[k + 1:]
+        if b[k] not in ";,":
+            raise AnchorLost("`return Err(..)` not followed by `;` or `,`")
+        b = b[:m.start()] + "return None" + b[k] + b[k + 1:]
 
 
 def decode_fn(prog):
@@ -176,6 +176,53 @@ def loader_fn(prog):
             + b.strip()[1:].rstrip()[:-1] + "\n}\n")
 
 
+CONST_MODEL = """
+// model of the few std operations the bounds prefix of decode_const_entries uses; each panic condition of the real
+// operation is the precondition here, so Verus has to prove it can never occur
+#[verifier::external_body]
+pub fn slice_to_vec(v: &Vec<u8>, a: usize, b: usize) -> (r: Vec<u8>)     // `v[a .. b].to_vec()`
+  requires a <= b <= v@.len(),
+  ensures r@.len() == b - a,
+{ v[a..b].to_vec() }
+#[verifier::external_body]
+pub fn vec_get_entry(v: &Vec<TypeEntry>, i: usize) -> (o: Option<&TypeEntry>)   // `v.get(i)`
+  ensures i < v@.len() ==> o.is_some(), i >= v@.len() ==> o.is_none(),
+{ v.get(i) }
+#[verifier::external_body]
+pub fn enc_is_inline(enc: u8) -> (b: bool) { unimplemented!() }            // `enc == ConstEncoding::Inline as u8`
+#[verifier::external_body]
+pub fn vec_values_with_capacity(n: usize) -> (v: Vec<u64>) ensures v@.len() == 0, { Vec::with_capacity(n) }
+"""
+
+
+def const_prefix_fn(prog, check_alignment_item):
+    """(F) the statements of decode_const_entries before `let val: Value = match ty.tag {`: encoding / bounds / alignment checks,
+    the payload slice and the type lookup.  `self.const_entries`, `self.const_blob`, `self.types.entries` become parameters;
+    `for e in &X` -> index loop; `X[a .. b].to_vec()` -> slice_to_vec(X, a, b) (its panic condition is the precondition);
+    `X.get(i)` -> vec_get_entry; `enc != ConstEncoding::Inline as u8` -> `!enc_is_inline(enc)`; the per-type decoding
+    (`match ty.tag {..}`: the ConstElem::from_le decoders) is cut off and NOT decided."""
+    m = find_code(prog, r"pub\s+fn\s+decode_const_entries\s*\(\s*&self\s*\)\s*->\s*MResult<Vec<Value>>\s*\{")
+    if not m:
+        raise AnchorLost("decode_const_entries not found")
+    body = prog[m.end() - 1:match_brace(prog, m.end() - 1)]
+    cut = find_code(body, r"let\s+val\s*:\s*Value\s*=\s*match\s+ty\.tag\s*\{")
+    if not cut:
+        raise AnchorLost("`let val: Value = match ty.tag {` not found")
+    b = body[1:cut.start()]
+    b = _common(b)
+    b, n0 = re.subn(r"for\s+const_entry\s+in\s+&self\.const_entries\s*\{", "for k_ in 0..const_entries.len()\n    invariant blob_len == const_blob@.len(),\n{ let const_entry = &const_entries[k_];", b)
+    b = b.replace("self.const_entries", "const_entries").replace("self.const_blob", "const_blob").replace("self.types.entries", "types_entries")
+    b, n1 = re.subn(r"\bVec::with_capacity\(([^;]*)\);", r"vec_values_with_capacity(\1);", b)
+    b, n2 = re.subn(r"\bconst_entry\.enc\s*!=\s*ConstEncoding::Inline\s+as\s+u8", "!enc_is_inline(const_entry.enc)", b)
+    b, n3 = re.subn(r"\b(\w+)\[\s*([^\[\]]*?)\s*\.\.\s*([^\[\]]*?)\s*\]\.to_vec\(\)", r"slice_to_vec(\1, \2, \3)", b)
+    b, n4 = re.subn(r"\btypes_entries\.get\(([^()]*(?:\([^()]*\))?[^()]*)\)", r"vec_get_entry(types_entries, \1)", b)
+    b = re.sub(r"\b(\w+(?:\.\w+)*)\.checked_add\(([\w.]+)\)", r"checked_add_u64(\1, \2)", b)
+    if n0 != 1 or n2 != 1 or n3 != 1 or "self." in b or "Err(" in b:
+        raise AnchorLost("decode_const_entries prefix no longer has the expected shape (loop=%d enc=%d slice=%d)" % (n0, n2, n3))
+    return ("fn decode_const_entries_bounds(const_entries: &Vec<ParsedConstEntry>, const_blob: &Vec<u8>, types_entries: &Vec<TypeEntry>) -> (res: Option<()>)\n{\n"
+            + b + "\n    }\n  Some(())\n}\n")
+
+
 def add_loader_unit(plan, prop, prog, sect, decode_items, model2):
     obs = {
         "load_program_from_reader": plan.ob("%s.verus.load_program_from_reader.total_no_panic_bounded_alloc" % prop, "verus", "proved", functions=["load_program_from_reader", "section_in_file"],
@@ -196,6 +243,21 @@ def add_loader_unit(plan, prop, prog, sect, decode_items, model2):
         text = text.replace("verus! {\n", "verus! {\nbroadcast use vstd::std_specs::hash::group_hash_axioms;\n", 1)
         u = vlib.VerusUnit("c07_loader", text, {"load_program_from_reader": obs["load_program_from_reader"].name, "parse_const_entries": obs["parse_const_entries"].name}, ["canary_loader"])
         plan.verus.append(u)
+        # bounds prefix of the constant decoder
+        ob = plan.ob("%s.verus.decode_const_entries.bounds_no_panic" % prop, "verus", "proved", functions=["ParsedProgram::decode_const_entries (statements before the per-type match)"],
+                     what="for EVERY constant table, blob and type section: the offset/length arithmetic cannot overflow, the payload slice and the type lookup are in range "
+                          "(the per-type ConstElem::from_le decoders after it are NOT under contract)")
+        try:
+            csig, cbody = extract_fn(prog, "check_alignment")
+            ca = "pub " + csig.strip().replace("pub ", "") + " " + cbody + "\n"
+            ca = re.sub(r"fn check_alignment\(([^)]*)\)\s*->\s*bool", r"fn check_alignment(\1) -> (r: bool)", ca)
+            items2 = [decode_items[0], model2, _struct(sect, "ByteCodeHeader"), _enum(sect, "TypeTag"), _struct(sect, "TypeEntry"), _struct(prog, "ParsedConstEntry"), CONST_MODEL,
+                      ca, const_prefix_fn(prog, ca), vlib.verus_canary("canary_const", "x: u64", [])]
+            u2 = vlib.VerusUnit("c07_const_bounds", vlib.verus_file(items2), {"decode_const_entries_bounds": ob.name}, ["canary_const"])
+            plan.verus.append(u2)
+        except Exception as e:
+            plan.anchor_errors.append((ob.name, "%s: %s" % (type(e).__name__, e)))
+            ob.status, ob.detail = "undecided", "anchor lost: %s" % e
     except Exception as e:
         for o in obs.values():
             plan.anchor_errors.append((o.name, "%s: %s" % (type(e).__name__, e)))
